@@ -92,6 +92,31 @@ Theorem C10_send_message_write_all : forall hdr_fields c m w0 ds c' w' r,
 Proof. exact send_message_write_all_spec. Qed.
 Print Assumptions C10_send_message_write_all.
 
+(* Giving a message up (dropping the context at zero bytes, force_finish at any point, the by-design
+   panic of Drop after a partial write, keeping only the progress) or having one refused by
+   send_message does not disturb the NEXT message: send_message does not look at what is left in
+   header_buf, and the next message satisfies the whole specification relative to what the peer
+   holds by then, under any schedule *)
+Theorem C10_header_buf_forgotten : forall hdr_fields c m,
+  send_message hdr_fields c m = send_message hdr_fields {| header_buf := []; serial_counter := serial_counter c |} m.
+Proof. exact send_message_forgets_header. Qed.
+Print Assumptions C10_header_buf_forgotten.
+
+Theorem C10_next_message_unaffected : forall hdr_fields c m c' x w sched m2 c2 x2 sched2,
+  conn_ok c -> op_wf (OpSend m) -> send_message hdr_fields c m = Ok (c', Some x) ->
+  let r := run_send x w sched in
+  op_wf (OpSend m2) -> send_message hdr_fields (r_conn r) m2 = Ok (c2, Some x2) ->
+  send_spec (header_buf c2) (msg_body m2) (msg_raw_fds m2) (ctx_serial x2) (r_world r) (run_send x2 (r_world r) sched2).
+Proof. exact next_message_unaffected. Qed.
+Print Assumptions C10_next_message_unaffected.
+
+Theorem C10_next_after_refused : forall hdr_fields c m c' m2 c2 x2 w sched2,
+  conn_ok c -> op_wf (OpSend m) -> send_message hdr_fields c m = Ok (c', None) ->
+  op_wf (OpSend m2) -> send_message hdr_fields c' m2 = Ok (c2, Some x2) ->
+  send_spec (header_buf c2) (msg_body m2) (msg_raw_fds m2) (ctx_serial x2) w (run_send x2 w sched2).
+Proof. exact next_after_refused. Qed.
+Print Assumptions C10_next_after_refused.
+
 (* into_progress + resume restore the context; Drop panics exactly on a partially sent message *)
 Theorem C10_resume : forall x w,
   resume (cx_conn x) (cx_msg x) (into_progress x) = x
